@@ -1926,9 +1926,17 @@ class _FormatInferInstance(Visitor):
         is the exact answer rather than a superset.
         """
         if _holds_only_zero(cand):
+            # ... among the *finite* values: the special values the candidate
+            # has are members too (`(-0.0) * x` is NaN for an infinite `x`)
             zeros: set[SetValue] = {Fraction(0)}
             if cand.has_neg_zero:
                 zeros.add(NEG_ZERO)
+            if cand.has_pos_inf:
+                zeros.add(Special.POS_INF)
+            if cand.has_neg_inf:
+                zeros.add(Special.NEG_INF)
+            if cand.has_nan:
+                zeros.add(Special.NAN)
             return SetFormat(frozenset(zeros))
         mat = cand.format()
         if (isinstance(mat, AbstractableFormat)
